@@ -23,10 +23,10 @@ ASSUMPTIONS = [
 
 
 def run(ctx, rep):
-    RF.rule_no_nondeterminism(ctx, rep, "R1")
-    RF.rule_no_unordered(ctx, rep, "R2")
+    rep.run(RF.rule_no_nondeterminism, ctx, rep, "R1")
+    rep.run(RF.rule_no_unordered, ctx, rep, "R2")
     rep.require_min("R2", 20)
-    RF.rule_accumulators(ctx, rep, "R3")
-    RF.rule_write_provenance(ctx, rep, "R4", min_sites=4)
-    RF.rule_read_sites(ctx, rep, "R5", min_sites=4)
-    RF.rule_whole_file_writes(ctx, rep, "R6", min_sites=3)
+    rep.run(RF.rule_accumulators, ctx, rep, "R3")
+    rep.run(RF.rule_write_provenance, ctx, rep, "R4", min_sites=4)
+    rep.run(RF.rule_read_sites, ctx, rep, "R5", min_sites=4)
+    rep.run(RF.rule_whole_file_writes, ctx, rep, "R6", min_sites=3)
